@@ -406,10 +406,80 @@ def pagesDict (n : Nat) : Obj :=
 def catalogDict (xmpId : Nat) : Obj :=
   .dict [(key "Type", nm "Catalog"), (key "Pages", .ref 2 0), (key "Metadata", .ref xmpId 0)]
 
+/-! ### PDF text strings (`Object::text_string`, /repo 32e466e2) -/
+
+/-- UTF-8 → code points (well-formed input: the bytes of a Rust `String`) -/
+def utf8Decode : Nat → Bytes → Option (List Nat)
+  | 0, _ => none
+  | _, [] => some []
+  | fuel + 1, b :: r =>
+    if b < 128 then (utf8Decode fuel r).map (b :: ·)
+    else if 192 ≤ b && b < 224 then
+      match r with
+      | c :: r' => (utf8Decode fuel r').map (((b - 192) * 64 + (c - 128)) :: ·)
+      | _ => none
+    else if 224 ≤ b && b < 240 then
+      match r with
+      | c :: e :: r' => (utf8Decode fuel r').map (((b - 224) * 4096 + (c - 128) * 64 + (e - 128)) :: ·)
+      | _ => none
+    else if 240 ≤ b && b < 248 then
+      match r with
+      | c :: e :: f :: r' =>
+        (utf8Decode fuel r').map (((b - 240) * 262144 + (c - 128) * 4096 + (e - 128) * 64 + (f - 128)) :: ·)
+      | _ => none
+    else none
+
+def utf8Encode : List Nat → Bytes
+  | [] => []
+  | c :: r =>
+    (if c < 128 then [c]
+     else if c < 2048 then [192 + c / 64, 128 + c % 64]
+     else if c < 65536 then [224 + c / 4096, 128 + c / 64 % 64, 128 + c % 64]
+     else [240 + c / 262144, 128 + c / 4096 % 64, 128 + c / 64 % 64, 128 + c % 64]) ++ utf8Encode r
+
+/-- `str::encode_utf16` as big-endian bytes -/
+def utf16be : List Nat → Bytes
+  | [] => []
+  | c :: r =>
+    (if c < 65536 then [c / 256, c % 256]
+     else
+       let a := c - 65536
+       let hi := 55296 + a / 1024
+       let lo := 56320 + a % 1024
+       [hi / 256, hi % 256, lo / 256, lo % 256]) ++ utf16be r
+
+/-- `String::from_utf16_lossy` on big-endian pairs (well-formed input) -/
+def utf16Decode : Nat → Bytes → List Nat
+  | 0, _ => []
+  | fuel + 1, a :: b :: r =>
+    let u := a * 256 + b
+    if 55296 ≤ u && u < 56320 then
+      match r with
+      | c :: e :: r' => (65536 + (u - 55296) * 1024 + (c * 256 + e - 56320)) :: utf16Decode fuel r'
+      | _ => [65533]
+    else u :: utf16Decode fuel r
+  | _, _ => []
+
+/-- `Object::text_string(text)`: a literal string when every character is HT, LF or printable
+    ASCII, otherwise BOM + UTF-16BE in a hexadecimal string -/
+def textString (utf8 : Bytes) : Obj :=
+  if utf8.all (fun b => b == 9 || b == 10 || (32 ≤ b && b ≤ 126)) then .str utf8
+  else match utf8Decode (utf8.length + 1) utf8 with
+    | some cps => .hexstr (254 :: 255 :: utf16be cps)
+    | none => .str utf8
+
+/-- `PdfString::to_text` printed as UTF-8: BOM → UTF-16BE, otherwise every byte through
+    `winansi_decode_char` (ASCII and 0xA0–0xFF map to themselves; 0x80–0x9F, the Windows-1252
+    specials, are outside what the generator produces: `none`) -/
+def toTextUtf8 (bs : Bytes) : Option Bytes :=
+  match bs with
+  | 254 :: 255 :: r => some (utf8Encode (utf16Decode (r.length + 1) r))
+  | _ => if bs.all (fun b => b < 128 || (160 ≤ b && b < 256)) then some (utf8Encode bs) else none
+
 /-- `write_info`: the user's strings; `extra` = the entries the model does not derive (dates,
     default Creator / Producer, the three `oxidize-pdf-*` entries) -/
 def infoDict (d : Doc) (extra : List (Bytes × Obj)) : Obj :=
-  .dict (d.info.map (fun e => (e.1, Obj.str e.2)) ++
+  .dict (d.info.map (fun e => (e.1, textString e.2)) ++
          extra.filter (fun e => !(d.info.map (·.1)).contains e.1))
 
 /-- every object `write_document` writes, in writing order (without the cross-reference stream) -/
@@ -732,9 +802,10 @@ def normPage (p : PageD) : PageR :=
 def norm (d : Doc) (extra : List (Bytes × Obj)) : DocR :=
   { pages := d.pages.map normPage,
     info := infoKeys.filterMap fun k =>
-      match dictGet (key k) (d.info.map (fun e => (e.1, Obj.str e.2)) ++
+      match dictGet (key k) (d.info.map (fun e => (e.1, textString e.2)) ++
                              extra.filter (fun e => !(d.info.map (·.1)).contains e.1)) with
       | some (.str s) => some (key k, s)
+      | some (.hexstr s) => some (key k, s)
       | _ => none }
 
 /-! ## the file (layout = C03's model of `write_object` / xref / trailer) -/
